@@ -135,6 +135,10 @@ type c13Gen struct {
 	descr   []string // API used per message (bucket)
 	// a ReadFrom source in this session returned io.EOF together with its last bytes
 	eofWithData bool
+	// write compression currently switched off by the application (EnableWriteCompression(false))
+	plainNow bool
+	// per data message, in order: was it written compressed?
+	zflags []bool
 }
 
 // genData returns the bytes and the byte field to use in the model script (p:n:seed for long ones).
@@ -219,6 +223,17 @@ func (g *c13Gen) message() {
 	n := g.size()
 	data, field := g.genData(n)
 	compressed := g.deflate
+	if g.deflate && r.Chance(35) {
+		// the application may switch write compression per message on a session that negotiated permessage-deflate:
+		// the peer then gets compressed and plain messages interleaved
+		g.plainNow = !g.plainNow
+		g.conn.EnableWriteCompression(!g.plainNow)
+		g.ops = append(g.ops, "E;"+b01(!g.plainNow)) // no result token: the call returns nothing
+	}
+	if g.plainNow {
+		compressed = false
+	}
+	g.zflags = append(g.zflags, compressed)
 	api := r.Intn(6)
 	ok := false
 	switch api {
@@ -481,9 +496,14 @@ func c13Session(c *h.Ctx, B int, server, deflate bool, level int, nmsg int, with
 	}
 	c.Hold(okMsgs, "writer_payload", in, fmt.Sprintf("%d messages on the wire", len(got)), fmt.Sprintf("%d messages written, same (type, payload)", len(g.msgs)))
 	if deflate {
+		// RSV1 exactly on the first frame of the messages that were written compressed (the application may have
+		// switched write compression off for some)
+		mi := 0
 		for _, f := range frames {
 			if f.Op == 1 || f.Op == 2 {
-				c.Hold(f.Rsv == 4, "writer_wellformed.rsv1_first", in, f.String(), "RSV1 on the first frame of a compressed message")
+				wantZ := mi >= len(g.zflags) || g.zflags[mi]
+				mi++
+				c.Hold((f.Rsv == 4) == wantZ, "writer_wellformed.rsv1_first", in, f.String(), fmt.Sprintf("RSV1 = %v on the first frame of this message", wantZ))
 			}
 		}
 	}
